@@ -739,9 +739,9 @@ def _pvf_strategy(tier):
         st.fixed_dictionaries({"fmt": st.just("trn"), "corpus": _trn_corpus(tier),
                                "wrap": st.just([-1, -1]), "times": st.just([None]), "prior": _PRIOR,
                                "as_generator": st.booleans()}),
-        st.tuples(_ctm_case(tier), _PRIOR).map(lambda c: dict(c[0], fmt="ctm", prior=c[1])),
-        st.tuples(_tg_case(tier), _PRIOR).map(lambda c: dict(c[0], fmt="textgrid", prior=c[1])),
-        st.tuples(_tg_case(tier), _PRIOR).map(lambda c: dict(c[0], fmt="textgrid", prior=c[1])),
+        st.tuples(_ctm_case(tier), _PRIOR, st.booleans()).map(lambda c: dict(c[0], fmt="ctm", prior=c[1], as_generator=c[2])),
+        st.tuples(_tg_case(tier), _PRIOR, st.booleans()).map(lambda c: dict(c[0], fmt="textgrid", prior=c[1], as_generator=c[2])),
+        st.tuples(_tg_case(tier), _PRIOR, st.booleans()).map(lambda c: dict(c[0], fmt="textgrid", prior=c[1], as_generator=c[2])),
     )
 
 
@@ -781,7 +781,15 @@ def _path_vs_file(case):
         elif fmt == "ctm":
             api, wargs, wc2utt, key = _ctm_args(case)
             data.write_ctm(api, f, *wargs)
-            data.write_ctm(api, path, *wargs)
+            if case.get("as_generator"):
+                # "an iterable of transcripts": a one-shot iterator must do, through the path branch as well
+                data.write_ctm(iter(list(api)), path, *wargs)
+                g = io.StringIO()
+                data.write_ctm((x for x in list(api)), g, *wargs)
+                require(g.getvalue() == f.getvalue(), "write_ctm given a generator differs from the list", g.getvalue(), f.getvalue())
+                cl.append("transcripts_as_iterator")
+            else:
+                data.write_ctm(api, path, *wargs)
             readers = [lambda src: tx.plain(data.read_ctm(src, wc2utt))]
             cl.append("map_" + case["map"]["kind"])
             nontriv = case["map"]["kind"] == "dict"
@@ -789,7 +797,11 @@ def _path_vs_file(case):
             kw = _tg_kwargs(case)
             api = [tuple(e) for e in case["entries"]]
             data.write_textgrid(api, f, **kw)
-            data.write_textgrid(api, path, **kw)
+            if case.get("as_generator"):
+                data.write_textgrid(iter(list(api)), path, **kw)
+                cl.append("transcripts_as_iterator")
+            else:
+                data.write_textgrid(api, path, **kw)
             is_point = _tg_is_point(case)
             fill = None if is_point else case["fill"]
             tid = _tg_tier_id(case)
